@@ -4,6 +4,10 @@ import (
 	"bytes"
 	"encoding/json"
 	"fmt"
+	"os"
+	"os/exec"
+	"sort"
+	"strconv"
 )
 
 // C07 — same construction, same bytes: the recipe is built K times from scratch,
@@ -212,4 +216,135 @@ func firstDiff(a, b []byte) string {
 		hb = len(b)
 	}
 	return fmt.Sprintf("first difference at byte %d: %q vs %q", i, a[lo:ha], b[lo:hb])
+}
+
+// ---- cross-process leg: the plain package under the real runtime's map order ----
+
+func c07SafeCase(base uint64, i int, tier string) *Case {
+	seed := RunSeed(base, "C07-plain", i)
+	for k := uint64(0); ; k++ {
+		c := propC07{}.Gen(Mix(seed, k), tier)
+		var cfg GenCfg
+		json.Unmarshal(c.Cfg, &cfg)
+		if cfg.KeyQualMode != 2 && cfg.EqualKeys == 0 {
+			return c
+		}
+	}
+}
+
+// plainHist (runs inside the plain, unrewritten binary): every case built and rendered
+// `repeats` times in this process; prints index -> digest per repeat.
+func plainHist(base uint64, from, to, repeats int, tier string) {
+	out := map[string][]string{}
+	for i := from; i < to; i++ {
+		c := c07SafeCase(base, i, tier)
+		for rep := 0; rep < repeats; rep++ {
+			junkSink = nil
+			for j := 0; j < 5+rep*7; j++ {
+				junkSink = append(junkSink, make([]byte, 48+j*24))
+			}
+			hist := Exec(c.Recipe, newEnv(nil))
+			var parts []interface{}
+			for _, o := range hist {
+				if o.Render {
+					parts = append(parts, o.class())
+					if o.OK {
+						parts = append(parts, o.Out)
+					}
+				}
+			}
+			out[fmt.Sprint(i)] = append(out[fmt.Sprint(i)], digest(parts...))
+		}
+	}
+	b, _ := json.Marshal(out)
+	os.Stdout.Write(b)
+}
+
+// Post: the same order-independent recipes in several fresh processes of the plain
+// package (real map order, real addresses); any difference is a true positive.
+func (propC07) Post(tier string, base uint64) ([]workerViolation, map[string]int) {
+	counters := map[string]int{}
+	plain := os.Getenv("VERIF_SIMRUN_PLAIN")
+	if plain == "" {
+		return nil, counters
+	}
+	if _, err := os.Stat(plain); err != nil {
+		return nil, counters
+	}
+	n, procs, reps := 1500, 2, 3
+	if tier == "thorough" {
+		n, procs, reps = 20000, 3, 20
+	}
+	type res struct {
+		m   map[string][]string
+		err error
+	}
+	ch := make(chan res, procs*8)
+	shards := 8
+	per := (n + shards - 1) / shards
+	jobs := 0
+	for p := 0; p < procs; p++ {
+		for s := 0; s < shards; s++ {
+			from, to := s*per, min(n, (s+1)*per)
+			if from >= to {
+				continue
+			}
+			jobs++
+			go func(from, to int) {
+				cmd := exec.Command(plain, "plainhist", fmt.Sprint(base), fmt.Sprint(from), fmt.Sprint(to), fmt.Sprint(reps), tier)
+				b, err := cmd.Output()
+				var m map[string][]string
+				if err == nil {
+					err = json.Unmarshal(b, &m)
+				}
+				ch <- res{m, err}
+			}(from, to)
+		}
+	}
+	all := map[string]map[string]bool{}
+	for j := 0; j < jobs; j++ {
+		r := <-ch
+		if r.err != nil {
+			fatal2("C07 cross-process leg: %v", r.err)
+		}
+		for k, ds := range r.m {
+			if all[k] == nil {
+				all[k] = map[string]bool{}
+			}
+			for _, d := range ds {
+				all[k][d] = true
+			}
+		}
+	}
+	counters["cross_process_recipes"] = len(all)
+	counters["cross_process_builds_per_recipe"] = procs * reps
+	var viols []workerViolation
+	var bad []int
+	for k, ds := range all {
+		if len(ds) > 1 {
+			i, _ := strconv.Atoi(k)
+			bad = append(bad, i)
+		}
+	}
+	sort.Ints(bad)
+	for _, i := range bad {
+		c := c07SafeCase(base, i, tier)
+		// try to pin the difference to simulated decisions, so that the replay is exact
+		c.Execs = nil
+		c.Execs = append(c.Execs, ExecSpec{Mode: "identity"}, ExecSpec{Mode: "reverse"})
+		for k := 0; k < 30; k++ {
+			c.Execs = append(c.Execs, ExecSpec{Mode: "shuffle", Seed: Mix(c.Seed, uint64(1000+k))})
+		}
+		if v, ri := runCheck(propC07{}, c); v != nil {
+			viols = append(viols, workerViolation{Index: -1 - i, Seed: c.Seed, V: v, Case: freeze(c, ri)})
+		} else {
+			c.Execs = []ExecSpec{{Mode: "identity"}}
+			viols = append(viols, workerViolation{Index: -1 - i, Seed: c.Seed, Case: c,
+				V: &Violation{Rule: "C07-plain-builds-differ", Detail: fmt.Sprintf("the same construction rendered %d different outputs over %d builds in %d fresh processes of the unrewritten package, although no simulated map order reproduces a difference: output depends on other incidental state (addresses, time, ...). The replay file carries the recipe; the difference shows under the real runtime only.", len(all[fmt.Sprint(i)]), procs*reps, procs)}})
+		}
+		if len(viols) >= 3 {
+			break
+		}
+	}
+	return viols, counters
 }
